@@ -43,8 +43,8 @@ MODEL_SCOPE = {
 
 PROFILES = {
     # property: [(profile, quick n, thorough n)]
-    "C01": [("base", 700, 12000), ("faults", 300, 6000)],
-    "C04": [("base", 900, 16000), ("faults", 200, 4000)],
+    "C01": [("base", 700, 12000), ("faults", 300, 6000), ("long", 25, 400)],
+    "C04": [("base", 900, 16000), ("faults", 200, 4000), ("long", 60, 800)],
     "C05": [("base", 700, 12000), ("faults", 200, 4000), ("handshake", 150, 2000)],
     "C08": [("faults", 900, 16000), ("base", 200, 3000)],
     "C17": [("art", 250, 5000)],
@@ -184,7 +184,7 @@ def _run(prop, tier, replay, seed, work, t0):
             cfg = sc.get("cfg", {})
             if any(k in cfg for k in ("max_read", "max_write", "pic", "password", "greeting")):
                 return False
-            return not any(st.get("kind") in ("art", "tlist", "tvec") for b in sc.get("batches", []) for st in b)
+            return not any(st.get("kind") in ("art", "tlist", "tvec") or st.get("op") == "wstall" for b in sc.get("batches", []) for st in b)
         keep = {sc["run"] for sc in scheds if plain(sc)}
         ltp = work.path("looptrace.ndjson")
         nruns = 0
